@@ -316,6 +316,42 @@ func checkC10(c *Ctx) {
 			one([]MPart{{Kind: "text", Text: "x" + strings.TrimSpace(txt[1:]) + "y"}, alpha[10]}, "")
 		}
 	}
+	// literal braces around a word that is another message's placeholder name: "{A} took a trip." as
+	// text is not the message "{$a} took a trip." (the ids differ: the fingerprint of a placeholder
+	// is its bare name). Alone, and each after the other in one file.
+	{
+		braced := func(t string) MPart {
+			return MPart{Kind: "text", Text: t, Src: strings.NewReplacer("{", "{lb}", "}", "{rb}").Replace(t)}
+		}
+		m1 := []MPart{braced("{A} took a trip.")}
+		m2 := []MPart{alpha[10], {Kind: "text", Text: " took a trip."}}
+		one(m1, "")
+		one(m2, "")
+		for _, pair := range [][2][]MPart{{m1, m2}, {m2, m1}} {
+			if !c.Mine() {
+				continue
+			}
+			id0, _, _ := refMessage(pair[0], "")
+			id1, _, _ := refMessage(pair[1], "")
+			src := msgTemplate("ns.pair", "{msg desc=\"d\"}"+srcParts(pair[0])+"{/msg}|{msg desc=\"d\"}"+srcParts(pair[1])+"{/msg}", append(append([]MPart{}, pair[0]...), pair[1]...))
+			var got []compiledMsg
+			var err error
+			v := vrt.Run(vrt.Options{Fuel: 5000000}, func() { got, err = compileMsgs([]string{src}, globals) })
+			cs := c10case{Msg: srcParts(pair[0]) + " | " + srcParts(pair[1]), Surround: "two messages in one template"}
+			obs := fmt.Sprint(err, len(got))
+			if err == nil && len(got) == 2 {
+				obs = fmt.Sprint(got[0].id, got[1].id)
+			}
+			c.Observe("brace-pair\x00"+cs.Msg, obs)
+			c.Nontrivial()
+			switch {
+			case v.Panic != nil || v.Exhausted || err != nil || len(got) != 2:
+				c.Violate("message compiles", "mismatch", "reject:brace pair", cs, "two messages", fmt.Sprint(v.Panic, v.Exhausted, err, len(got)))
+			case got[0].id != id0 || got[1].id != id1:
+				c.Violate("the id is unaffected by the description, surrounding code and other messages", "mismatch", "context-dependent:literal braces", cs, fmt.Sprint(id0, " ", id1), fmt.Sprint(got[0].id, " ", got[1].id))
+			}
+		}
+	}
 	// plurals: case sets over {0,1,2}, bodies from a small alphabet, placeholders colliding with the plural variable
 	small := []MPart{alpha[0], alpha[10], alpha[11], alpha[3], alpha[14], alpha[16], alpha[12], alpha[13]}
 	var bodies [][]MPart
